@@ -53,7 +53,8 @@ class RandintRecorder:
 
     def __call__(self, *a, **k):
         v = self.real(*a, **k)
-        self.vals.append(int(v))
+        # a scalar draw or (after a refactor that draws several values at once) an array: recorded value by value, never a TypeError
+        self.vals.extend(int(x) for x in np.ravel(v))
         return v
 
 
